@@ -5,10 +5,12 @@
 */
 #include "env_pre.h"
 #include <math.h>
+#ifndef NATIVE_REPLAY	/* the native replay runs on the real libm */
 #define frexp(x, e)		verif_frexp ((x), (e))
 #define pow(b, e)		verif_pow2 ((b), (e))
 #define fmod(x, y)		verif_fmod1 ((x), (y))
 double verif_fmod1 (double x, double y) ;
+#endif
 double verif_frexp (double x, int *e) ;
 double verif_pow2 (double b, double e) ;
 #include "double64.c"
@@ -40,7 +42,7 @@ double verif_fmod1 (double x, double y)
 #define IS_NORMAL_BITS64(u)	((((u) >> 52) & 0x7ff) != 0 && (((u) >> 52) & 0x7ff) != 0x7ff)
 
 void h_f64_write (void)
-{	union { double f ; uint64_t u ; unsigned char b [8] ; } x ; uint64_t nd ; x.u = nd ;
+{	union { double f ; uint64_t u ; unsigned char b [8] ; } x ; INPUT (uint64_t, nd) ; x.u = nd ;
 	__CPROVER_assume (IS_NORMAL_BITS64 (x.u)) ;
 	unsigned char le [8], be [8] ;
 	double64_le_write (x.f, le) ;
@@ -53,7 +55,7 @@ void h_f64_write (void)
 }
 
 void h_f64_read (void)
-{	union { double f ; uint64_t u ; unsigned char b [8] ; } x ; uint64_t nd ; x.u = nd ;
+{	union { double f ; uint64_t u ; unsigned char b [8] ; } x ; INPUT (uint64_t, nd) ; x.u = nd ;
 	__CPROVER_assume (IS_NORMAL_BITS64 (x.u)) ;
 	unsigned char be [8] ;
 	for (int k = 0 ; k < 8 ; k++) be [k] = x.b [7 - k] ;
